@@ -63,7 +63,9 @@ func c02EvalModDown(c *Ctx, po bool, ch c02Chain) {
 		if ringP != nil {
 			gP = c02PrimRoots(ringP)
 		}
-		eval := rlwe.NewEvaluator(params, nil)
+		eval0 := rlwe.NewEvaluator(params, nil)
+		// the evaluator, a ShallowCopy() and a copy of the copy (their BasisExtenders are shallow copies)
+		evals := []*rlwe.Evaluator{eval0, eval0.ShallowCopy(), eval0.ShallowCopy().ShallowCopy()}
 		nQ, nP := len(ch.Q), len(ch.P)
 		lqs := map[int]bool{0: true, (nQ - 1) / 2: true, nQ - 1: true}
 		lps := map[int]bool{-1: true}
@@ -122,6 +124,7 @@ func c02EvalModDown(c *Ctx, po bool, ch c02Chain) {
 						jp := c02JunkPoly(r, N, levelQ)
 						ct.Value[i].CopyLvl(levelQ, jp)
 					}
+					eval := evals[(flags+levelQ)%len(evals)]
 					pan := c02Panics(func() { eval.ModDown(levelQ, levelP, ctQP, ct) })
 					c.Count(fmt.Sprintf("evalmoddown:ci=%d,levelP=%d,qpNTT=%v,ctNTT=%v", ci, levelP, qpNTT, ctNTT))
 					for i := 0; i < 2; i++ {
